@@ -41,6 +41,10 @@ func genCount(t *rapid.T, chunk int) int {
 func genHistory(concurrent bool) func(t *rapid.T) mx.History {
 	return func(t *rapid.T) mx.History {
 		h := mx.History{Chunk: rapid.IntRange(1, 8).Draw(t, "chunk"), Struct: rapid.Bool().Draw(t, "struct"), AutoClear: rapid.Bool().Draw(t, "auto-clear"), Concurrent: concurrent}
+		if rapid.IntRange(0, 24).Draw(t, "large-runs") == 0 {
+			// runs larger than the 4 KiB read buffer of the gob decoder: file reads then happen during Pull
+			h.Chunk = rapid.IntRange(150, 400).Draw(t, "large-chunk")
+		}
 		n := rapid.IntRange(1, 4).Draw(t, "ncycles")
 		for i := 0; i < n; i++ {
 			c := mx.Cycle{Pull: -1, Clear: rapid.Bool().Draw(t, "clear")}
@@ -122,6 +126,9 @@ func classes(h mx.History) []string {
 	}
 	if h.Struct {
 		l = append(l, "struct")
+	}
+	if h.Chunk >= 150 && modes[true] {
+		l = append(l, "runs-larger-than-read-buffer")
 	}
 	if h.AutoClear {
 		l = append(l, "auto-clear")
